@@ -96,10 +96,35 @@ class Builtin:
     fn: Callable  # (ex, ctx, args, kwargs) -> list[(ctx, value)]
 
 
-@dataclass
+@dataclass(frozen=True)
 class TypeRef:
     """a class / type object named in the source (used by isinstance, raise, except, calls to constructors)"""
     name: str
+
+
+def _clone(v, memo):
+    """per-path copy of mutable python-level containers (Obj fields, lists, dicts); z3 terms are immutable. Aliasing between
+    names of one environment is preserved through `memo`."""
+    if isinstance(v, (Obj, list, dict)):
+        if id(v) in memo:
+            return memo[id(v)]
+        if isinstance(v, Obj):
+            n = Obj(v.cls, {})
+            memo[id(v)] = n
+            n.fields.update({k: _clone(x, memo) for k, x in v.fields.items()})
+            return n
+        if isinstance(v, list):
+            n = []
+            memo[id(v)] = n
+            n.extend(_clone(x, memo) for x in v)
+            return n
+        n = {}
+        memo[id(v)] = n
+        n.update({k: _clone(x, memo) for k, x in v.items()})
+        return n
+    if isinstance(v, tuple) and any(isinstance(x, (Obj, list, dict)) for x in v):
+        return tuple(_clone(x, memo) for x in v)
+    return v
 
 
 class Ctx:
@@ -113,8 +138,9 @@ class Ctx:
         self.trace = trace if trace is not None else []
 
     def fork(self, *conds):
-        c = Ctx(dict(self.env), list(self.pc) + [x for x in conds if x is not None], dict(self.heap), dict(self.ghost),
-                list(self.trace))
+        memo: dict = {}
+        c = Ctx({k: _clone(v, memo) for k, v in self.env.items()}, list(self.pc) + [x for x in conds if x is not None],
+                dict(self.heap), dict(self.ghost), list(self.trace))
         return c
 
     def assume(self, *conds):
@@ -166,6 +192,11 @@ class Exec:
         return z3.Const(f"{prefix}!{next(self.fresh_id)}", sort)
 
     def oblige(self, name, ctx: Ctx, goal, signature="", concretize=None):
+        # a conjunction is split into one obligation per conjunct, so that a failure names the clause
+        if z3.is_expr(goal) and z3.is_and(goal) and goal.num_args() > 1:
+            for i, g in enumerate(goal.children()):
+                self.oblige(f"{name}#{i}", ctx, g, signature, concretize)
+            return
         self.obligations.append((name, list(ctx.pc), goal, signature, concretize or self.default_concretize))
 
     default_concretize = None
@@ -551,11 +582,18 @@ class Exec:
             raise GenError(f"loop over symbolic sequence at line {st.lineno} of {self.current_fn} needs a LoopSpec")
         name = f"{self.unit}/{self.current_fn}/loop@{self.loop_ordinal_of(st)}"
         res = []
+        mod = sorted(self.assigned_names(st.body) | set(spec.modifies))
+        # concrete python lists that the body mutates become abstract lists (model hook), so that they can be havocked
+        h_abs = self.models.get("__abstract_list__")
+        for n in mod:
+            if isinstance(ctx.env.get(n), list):
+                if h_abs is None:
+                    raise GenError(f"list '{n}' is mutated in a symbolic loop and no abstract-list model is installed")
+                ctx.env[n] = h_abs(self, ctx, n, ctx.env[n])
         # (1) establishment
         ghost0 = spec.init(self, ctx, seq)
         self.oblige(f"{name}/invariant-established", ctx, spec.inv(self, ctx, ghost0, z3.IntVal(0), seq))
         # (2) preservation: arbitrary iteration k from a havocked state
-        mod = sorted(self.assigned_names(st.body) | set(spec.modifies))
         hav = ctx.fork()
         k = self.fresh("k", z3.IntSort())
         for n in mod:
@@ -566,10 +604,10 @@ class Exec:
         elem = seq.at(k)
         for c2, _ in self.assign(st.target, elem, hav):
             ghost_n, assumptions = spec.step(self, c2, ghost_k, elem, k, seq)
-            for c3, o3 in self.block(st.body, c2):
+            for pi, (c3, o3) in enumerate(self.block(st.body, c2)):
                 if o3 is None or o3[0] == "continue":
                     c4 = c3.fork(*assumptions)
-                    self.oblige(f"{name}/invariant-preserved", c4, spec.inv(self, c4, ghost_n, k + 1, seq))
+                    self.oblige(f"{name}/invariant-preserved/path{pi}", c4, spec.inv(self, c4, ghost_n, k + 1, seq))
                 elif o3[0] == "break":
                     raise GenError("break in a loop with invariant is not supported")
                 else:
@@ -797,7 +835,10 @@ class Exec:
                         continue
                     go, stop = (t, z3.Not(t)) if is_and else (z3.Not(t), t)
                     if self.feasible(c2, stop):
-                        outs.append((c2.fork(stop), v if not z3.is_bool(v) else z3.BoolVal(not is_and)))
+                        sv = v if not z3.is_bool(v) else z3.BoolVal(not is_and)
+                        if isinstance(v, Opt) and not is_and:
+                            sv = v.val  # `x or y` with x truthy: x is not None on this path
+                        outs.append((c2.fork(stop), sv))
                     if self.feasible(c2, go):
                         new_pending.append((c2.fork(go), None))
             pending = new_pending
